@@ -2,6 +2,7 @@
 SPECIFICATION Spec
 CONSTANTS
   ShardFailureFix = TRUE
+  DescriptionSortFix = TRUE
   CursorFix = TRUE
   CursorRawDecode = FALSE
   NullMemberFix = TRUE
@@ -9,6 +10,7 @@ CONSTANTS
   TreeLevel = 0
   MaxHitsKeys = 1
   MaxItems = 2
+  MaxWideItems = 2
   MaxHits = 1
   MaxPages = 1
 INVARIANT PropertyHolds
